@@ -99,6 +99,7 @@ fn run_seq(run: &mut Run, u: &mut U, sa: &[AI], mutant: u32) {
         run.count("with-extern-pragma");
     }
     run.count(&format!("len={}", sa.len().min(12)));
+    report_unknown(u, run, &desc);
     run.case(coq, &desc, nontrivial, known);
 }
 
